@@ -32,7 +32,11 @@ pub fn remove_oscat_comment(source: String) -> String {
                     if c == '\n' {
                         output.push('\n');
                     } else {
-                        output.push(' ');
+                        // One blank per byte (not per character) so that byte
+                        // offsets of everything that follows are unchanged
+                        for _ in 0..c.len_utf8() {
+                            output.push(' ');
+                        }
                     }
                 }
 
